@@ -256,7 +256,7 @@ fn run_case(w: &mut W, c: &Case) -> Result<(String, Value), String> {
         Ok(p) => p,
         Err(e) => {
             detail["liveness"] = json!(format!("{:?}", e));
-            cli.close();
+            cli.discard();
             w.sentinel_ready = false;
             return Ok((if w.h.srv.as_ref().unwrap().is_dead() { "server-exited".into() } else { "new-connection-not-accepted".into() }, detail));
         }
@@ -268,7 +268,7 @@ fn run_case(w: &mut W, c: &Case) -> Result<(String, Value), String> {
         outcome = if w.h.srv.as_ref().unwrap().is_dead() { "server-exited".into() } else { "no-PONG-on-new-connection".into() };
         detail["liveness"] = json!({"reply": pong.first().map(resp::show), "error": perr});
     }
-    probe.close();
+    probe.discard();
     // sentinel dataset (db 1) intact, unless the command is documented to empty everything
     let wipes_all = c.name == "FLUSHALL" || (c.name == "REPLICAOF" || c.name == "SLAVEOF");
     if outcome == "ok" && !wipes_all && !(paused) {
@@ -282,7 +282,7 @@ fn run_case(w: &mut W, c: &Case) -> Result<(String, Value), String> {
             }
         }
     }
-    cli.close();
+    cli.discard();
     if let Some(s) = w.h.srv.as_ref() {
         if !s.is_dead() {
             let _ = s.steps(2);
